@@ -372,10 +372,14 @@ def run_monitors(objs, producer):
                     _cache_cond(o, producer) if k == "cond" else None)
                 if r is not None:
                     _count("CACHE", producer)
+                if r is False and len(STATE.bad_objs) < 1000:
+                    STATE.bad_objs.append(o)
             if "DENS" in mons and k == "pdf":
                 r = _dens(o, producer)
                 if r is not None:
                     _count("DENS", producer)
+                if r is False and len(STATE.bad_objs) < 1000:
+                    STATE.bad_objs.append(o)
         except Exception as e:  # a monitor must never break the workload
             STATE.rec and STATE.rec.count("monitor_error")
             if STATE.rec is not None and len(STATE.rec.notes) < 5:
